@@ -69,7 +69,7 @@ class A(Adapter):
             cfg("rand5e10o6raw", gen="random", items=5, ems=10, obs=6, norm=False, rew="sparse"),
             cfg("toy", gen="toy", items=20, ems=60, obs=40, norm=True, rew="dense"),
             cfg("rand10e25o25", gen="random", items=10, ems=25, obs=25, norm=True, rew="sparse"),
-            cfg("csv", gen="csv", items=10, ems=20, obs=12, norm=False, rew="dense"),
+            cfg("csv", c02=True, gen="csv", items=10, ems=20, obs=12, norm=False, rew="dense"),
             cfg("rand8e6o6", gen="random", items=8, ems=6, obs=6, norm=True, rew="dense"),
         ]
 
